@@ -42,7 +42,7 @@ def case_strategy(draw):
     src = grammar.HypSource(draw)
     # (init=False attributes were left out here until the repository fix that gives every instance its own copy of their
     # default: before it, an in-place element helper tried on the twin edited the shared class-level object.)
-    wd = grammar.gen_world(src, dict(grammar.PROFILES["data_plain"], flags=True))
+    wd = grammar.gen_world(src, dict(grammar.PROFILES["data_plain"], flags=True, prop_override=True))
     names = [c["name"] for c in wd["classes"]]
     modes = ["self", "self", "child"]
     if "P" in names:
@@ -63,6 +63,13 @@ def case_strategy(draw):
             hist.append({"t": "nested", "path": [["attr", "twin"]], "op": sub})
             continue
         hist.append(ops.gen_op(src, info, inplace=None, bad_rate=(1, 6), allow=("scalar", "element", "top", "deepcopy", "unmanaged") + (("nested",) if mode == "child" else ())))
+    for c in wd["classes"]:
+        for name in (c.get("prop_override") or {}):
+            # the attribute an undecorated subclass turned into a setter-backed property: evolve it by copy (and try in place)
+            for _ in range(1 + src.choice(2)):
+                verb = src.pick(["with", "update", "transform"])
+                arg = ["$fn", "inc", 0] if verb == "transform" else src.pick([5, 0, -2])
+                hist.insert(1 + src.choice(len(hist)), {"t": "call", "m": f"{verb}_{name}", "a": [arg], "k": {"_inplace": src.chance(1, 4)}, "adopt": src.chance(1, 2)})
     case = {"world": wd, "mode": mode, "ops": hist}
     if dnc_class:
         case["dnc_class"] = True
